@@ -200,6 +200,10 @@ int RePair::extractPrefixAndCompareDAC(uint id, uchar *prefix, uint prefixLen) {
   uint l = 0, pos = 0, next;
   int cmp = 0;
 
+  // Every string begins with the empty prefix
+  if (prefixLen == 0)
+    return 0;
+
   while (id != (uint)-1) {
     next = Cdac->access_next(l, &id);
 
